@@ -259,6 +259,8 @@ inductive Msg
   | updateClient (chain : Bytes) (h : Height) (root : Bytes) (signer : Bytes) (headerOk : Bool)
   | createClient (chain : Bytes) (cl : Client)           -- governance (abstract)
   | registerRelayer (r : Relayer)                        -- governance (abstract)
+  | toggleClient (chain : Bytes) (cl : Client)           -- governance ToggleClientProposal: a client of another kind
+  | upgradeClient (chain : Bytes) (cl : Client)          -- governance UpgradeClientProposal: same kind, new parameters
   | restart                                              -- node restart through genesis export -> JSON -> import
 
 /-- the callback's state changes are committed (`write()`): CallPacket succeeded with result code 0 -/
@@ -432,6 +434,28 @@ def ackBasic (env : Env) (packet ack : Bytes) (h : Height) (signer : Bytes) : Bo
   !h.isZero && !ack.isEmpty && env.bech32Valid signer && !(env.decodePacket packet).2 &&
     (env.decodePacket packet).1.validateBasic
 
+/-- UpgradeClient keeps the client store: the consensus states / metadata the new state brings are added to the old ones -/
+def mergeClient (old new : Client) : Client :=
+  { new with cons := new.cons.foldl (fun t e => t.set e.1 e.2) old.cons,
+             processed := new.processed.foldl (fun t e => t.set e.1 e.2) old.processed }
+
+/-- Keeper.ToggleClient: the client must exist and be of another kind; its store is cleared and the new client installed.
+Only the client table changes. -/
+def toggleClient (c : Chain) (chain : Bytes) (cl : Client) : Err Chain :=
+  match c.clients.get chain with
+  | none => .error "toggle:client"
+  | some old =>
+    if old.kind = cl.kind then .error "toggle:kind"
+    else .ok { c with clients := c.clients.set chain cl }
+
+/-- Keeper.UpgradeClient: the client must exist and be of the same kind. Only the client table changes. -/
+def upgradeClient (c : Chain) (chain : Bytes) (cl : Client) : Err Chain :=
+  match c.clients.get chain with
+  | none => .error "upgrade:client"
+  | some old =>
+    if old.kind = cl.kind then .ok { c with clients := c.clients.set chain (mergeClient old cl) }
+    else .error "upgrade:kind"
+
 def handle (env : Env) (c : Chain) (now : UInt64) : Msg → Err Chain
   | .recvPacket packet proof h signer cb =>
     if !recvBasic env packet h signer then .error "recv:basic" else recvPacket env c now packet proof h signer cb
@@ -444,6 +468,8 @@ def handle (env : Env) (c : Chain) (now : UInt64) : Msg → Err Chain
   | .registerRelayer r => .ok { c with relayers := insertRelayer r c.relayers }
   -- x/xibc ExportGenesis -> InitGenesis re-creates every client, consensus state, relayer, receipt, commitment,
   -- acknowledgement and send sequence under the key it had: the identity on the modelled state
+  | .toggleClient chain cl => toggleClient c chain cl
+  | .upgradeClient chain cl => upgradeClient c chain cl
   | .restart => .ok c
 
 /-- runMsgs: a handler error discards every write of the message. -/
